@@ -1079,7 +1079,11 @@ func Generate(rng *vlib.Rng, o GenOpts) *Program {
 					// a base service in another IDL file of the same Go package
 					if b := sharedNS[f].DefsOf(KService); len(b) > 0 {
 						ok := true
-						for _, fn := range b[0].Funcs {
+						var inherited []*Func
+						for x := b[0]; x != nil; x = x.Extends {
+							inherited = append(inherited, x.Funcs...)
+						}
+						for _, fn := range inherited {
 							for _, fn2 := range sv.Funcs {
 								if strings.EqualFold(strings.ReplaceAll(fn.Name, "_", ""), strings.ReplaceAll(fn2.Name, "_", "")) {
 									ok = false
@@ -1123,4 +1127,70 @@ func relPath(from, to string) string {
 	}
 	parts = append(parts, td[i:]...)
 	return strings.Join(parts, "/")
+}
+
+// Evolve applies compatible edits to p in place (the "newer version" of a schema): optional /
+// default-requiredness fields with fresh ids added to struct-likes at any nesting depth, members
+// added to unions and enums.  It returns a description of each edit.
+func Evolve(rng *vlib.Rng, p *Program, o GenOpts) []string {
+	if o.MaxDepth == 0 {
+		o.MaxDepth = 3
+	}
+	g := &gen{rng: rng, o: o, p: p, used: map[*File]map[string]bool{}}
+	for _, f := range p.Files {
+		g.used[f] = map[string]bool{}
+		for _, d := range f.Defs {
+			g.used[f][d.Name] = true
+		}
+	}
+	var log []string
+	n := 0
+	for _, f := range p.Files {
+		for _, d := range f.Defs {
+			switch {
+			case d.Kind == KEnum && rng.Chance(1, 2):
+				used := map[int64]bool{}
+				max := int64(0)
+				for _, ev := range d.EnumVals {
+					used[ev.Value] = true
+					if ev.Value > max {
+						max = ev.Value
+					}
+				}
+				if max > math.MaxInt32-10 {
+					continue
+				}
+				n++
+				d.EnumVals = append(d.EnumVals, &EnumVal{Name: fmt.Sprintf("ADDED_%d", n), Explicit: true, Value: max + 1 + int64(rng.Intn(5))})
+				log = append(log, "enum "+d.Name+": member added")
+			case d.Kind.IsStructLike() && rng.Chance(2, 3):
+				usedID := map[int32]bool{0: true}
+				for _, fl := range d.Fields {
+					usedID[fl.ID] = true
+				}
+				k := rng.Range(1, 3)
+				for i := 0; i < k; i++ {
+					n++
+					fl := &Field{Name: fmt.Sprintf("added_%d", n), ExplicitID: true}
+					for fl.ID = int32(rng.Range(1, 400)); usedID[fl.ID]; fl.ID = int32(rng.Range(-40, 4000)) {
+					}
+					usedID[fl.ID] = true
+					fl.Type = g.genType(f, o.MaxDepth)
+					if g.o.Recursion && rng.Chance(1, 6) && d.Kind == KStruct {
+						fl.Type = &Type{Name: "list", Elem: g.refTo(f, d)}
+					}
+					fl.Req = ReqOptional
+					if d.Kind != KUnion && !isStructy(fl.Type) && rng.Chance(1, 3) {
+						fl.Req = ReqDefault // (a non-optional struct-typed addition could close a cycle of by-value fields)
+					}
+					if d.Kind != KUnion && rng.Chance(1, 3) {
+						fl.Default = g.genValue(f, fl.Type, 1, nil)
+					}
+					d.Fields = append(d.Fields, fl)
+					log = append(log, fmt.Sprintf("%s %s: field %s (%s, %s, default=%v) added with id %d", d.Kind, d.Name, fl.Name, fl.Type.Shape(1), fl.Req, fl.Default != nil, fl.ID))
+				}
+			}
+		}
+	}
+	return log
 }
